@@ -608,7 +608,12 @@ impl<'s, M: Matcher, S: Sink> Core<'s, M, S> {
         if self.config.passthru {
             return false;
         }
-        if self.config.stop_on_nonmatch && self.has_matched {
+        if self.config.stop_on_nonmatch
+            && (self.has_matched || self.config.invert_match)
+        {
+            // The inverted fast path steps over the non-matching line that
+            // ends a run of matching lines without noticing that it is the
+            // line to stop at.
             return false;
         }
         if let Some(line_term) = self.matcher.line_terminator() {
